@@ -99,14 +99,20 @@ def gen_world(rng, profile):
     sp = W.scalar_paths(scn)
     ops = []
     opaths = W.object_paths(scn)
+    ninst = 1
     for _ in range(r.randint(2, profile.get("nops", 7))):
         x = r.random()
+        inst = r.randrange(ninst)
+        if r.random() < profile.get("new", 0.12) and ninst < 3:
+            ops.append({"op": "new"})
+            ninst += 1
+            continue
         if x < 0.45:
             tp_, tc = r.choice(opaths) if r.random() < 0.35 else opaths[0]
             inline = None
             if r.random() < 0.25:
                 inline = g.pstmts(rel_scalars(scn, tc), 1, 1)
-            ops.append({"op": "randomize", "target": list(tp_), "inline": inline, "seed": r.randrange(1 << 30)})
+            ops.append({"op": "randomize", "target": list(tp_), "inline": inline, "seed": r.randrange(1 << 30), "inst": inst})
         elif x < 0.6:
             p, dcl = r.choice(sp)
             w, s = dcl["w"], dcl["s"]
@@ -115,16 +121,17 @@ def gen_world(rng, profile):
             else:
                 lo, hi = (-(1 << (w - 1)), (1 << (w - 1)) - 1) if s else (0, (1 << w) - 1)
                 v = r.randint(lo, hi)
-            ops.append({"op": "set", "path": list(p), "val": v})
+            ops.append({"op": "set", "path": list(p), "val": v, "inst": inst})
         elif x < 0.8:
             p, dcl = r.choice(sp)
-            ops.append({"op": "rand_mode", "path": list(p), "val": r.random() < 0.4})
+            ops.append({"op": "rand_mode", "path": list(p), "val": r.random() < 0.4, "inst": inst})
         else:
             op_, oc = r.choice(opaths)
             bl = W.blocks_of(scn, oc)
             if bl:
-                ops.append({"op": "constraint_mode", "obj": list(op_), "block": r.choice(bl)["name"], "val": r.random() < 0.35})
-    ops.append({"op": "randomize", "target": [], "inline": None, "seed": r.randrange(1 << 30)})
+                ops.append({"op": "constraint_mode", "obj": list(op_), "block": r.choice(bl)["name"], "val": r.random() < 0.35, "inst": inst})
+    for i in range(ninst):
+        ops.append({"op": "randomize", "target": [], "inline": None, "seed": r.randrange(1 << 30), "inst": i})
     scn["ops"] = ops
     return scn
 
